@@ -264,6 +264,27 @@ func c06Expected(c c06Case) (allowed []c06Allowed, gateClosed bool, mandatory in
 }
 
 func optional(c c06Case, allowed []c06Allowed) int {
+	return optionalTime(c) + optionalDict(c)
+}
+
+// optionalDict: reactions to a missing / ill-typed SendingTime that only the dictionary checks produce are
+// permitted, not counted as mandated (other dictionary checks may speak first)
+func optionalDict(c c06Case) int {
+	if c.Cfg.DataDictionary == "" {
+		return 0
+	}
+	switch c06Time[c.Time] {
+	case "missing":
+		return 1
+	case "garbled":
+		if c.Cfg.Extra["RejectInvalidMessage"] != "N" {
+			return 1
+		}
+	}
+	return 0
+}
+
+func optionalTime(c c06Case) int {
 	state := c06States[c.State]
 	if !strings.Contains(state, "recovering") || c.Cfg.NoCheckLatency {
 		return 0
